@@ -505,9 +505,11 @@ def predict_inputs(kind, k):
             return [PRE + [lost]], None
         if k < len(head):
             return [PRE + ["back_partial", lost]], None
+        # a reset may destroy bytes the proxy has not read yet: the k = 0 schedule is admissible too
+        rst = [PRE + [lost]] if kind == "reset_at" else []
         if k < len(full):
             pre = PRE + ["back_head"]
-            return [pre + [lost, "front_write", "front_timeout"],
+            return rst + [pre + [lost, "front_write", "front_timeout"],
                     pre + ["front_write", lost, "front_write", "front_timeout"],
                     pre + ["front_write_partial", lost, "front_write", "front_timeout"]], None
         if kind == "stall_after":
